@@ -101,6 +101,16 @@ func (c *Ctx) Fn(ix *PkgIndex, rule, name string) *FuncInfo {
 		return nil
 	}
 	c.Analysed(f)
+	// a method that only forwards to another declared function of the package with its own parameters (typically to the
+	// embedded type's method it used to duplicate) is judged on the function that does the work
+	for i := 0; i < 2; i++ {
+		t := ix.pureDelegate(f)
+		if t == nil {
+			break
+		}
+		f = t
+		c.Analysed(f)
+	}
 	return f
 }
 
